@@ -39,6 +39,7 @@ const (
 	c17FetchPhase = 20 * time.Millisecond
 	c17PeekPhase  = 10 * time.Millisecond
 	c17KeyPhase   = 2 * time.Millisecond
+	c17CachePhase = 1 * time.Millisecond
 	// expiries above c17LongMs (20 min) are "long": the case never ticks through
 	// them; only the lower half of the window oracle applies (present at every
 	// tick before floor(0.95e)), checked while the case advances seconds..hours
@@ -48,6 +49,7 @@ const (
 )
 
 type c17Taker struct {
+	C   int  `json:"c,omitempty"`   // cache index; callers of cache 1 arrive 1 ms after those of cache 0
 	Key int  `json:"key"`           // key index; callers of key i arrive 2*i ms after the grid instant
 	At  int  `json:"at"`            // arrival offset, in 100 ms units
 	Lat int  `json:"lat"`           // fetch latency = Lat*100 ms + 20 ms
@@ -60,15 +62,27 @@ type c17Panic struct{ id int }
 
 type c17Op struct {
 	K   string     `json:"k"`             // set setx get del adv take
+	C   int        `json:"c,omitempty"`   // cache index (take: see the callers)
 	Key int        `json:"key,omitempty"` // key index (take: see the callers)
 	E   int        `json:"e,omitempty"`   // setx: expiry in ms
 	N   int        `json:"n,omitempty"`   // adv: ticks
 	T   []c17Taker `json:"t,omitempty"`   // take: the callers
 }
 
+// c17Cfg configures the optional second cache of a case. Both caches live in
+// one bubble (one process) and are used over the same key space; each is
+// judged by its own model.
+type c17Cfg struct {
+	Limit int    `json:"limit"`
+	Exp   int    `json:"exp"`
+	Name  string `json:"name,omitempty"` // "" = no WithName (default name)
+}
+
 type c17Case struct {
-	Limit int     `json:"limit"` // 0 = unlimited
-	Exp   int     `json:"exp"`   // cache expiry in ms
+	Limit int     `json:"limit"`          // 0 = unlimited
+	Exp   int     `json:"exp"`            // cache expiry in ms
+	Name  string  `json:"name,omitempty"` // WithName of cache 0, "" = none
+	C2    *c17Cfg `json:"c2,omitempty"`   // second cache, created 1 us after the first
 	J     int     `json:"j"`     // ns slept before NewCache (seeds the cache's jitter PRNG)
 	Off   int     `json:"off"`   // wheel phase: ticks before the first op
 	NK    int     `json:"nk"`    // keys
@@ -249,7 +263,7 @@ type c17Ev struct {
 	err  error
 	pan  bool // the call of Take panicked
 	pval any  // with this value
-	snap map[string]any
+	snap []map[string]any // per cache
 }
 
 func c17Lat(tk c17Taker) time.Duration {
@@ -267,7 +281,7 @@ func c17Lat(tk c17Taker) time.Duration {
 // are only that all of them return when the execution ends, that nothing is
 // cached, and that the execution is over: a later caller of the key is judged
 // by the normal rules (it must run a fetch of its own).
-func c17CheckGroup(m *c17Model, op c17Op, vals []int, errs []error, log []c17Ev, expMs int, what string) string {
+func c17CheckGroup(ms []*c17Model, exps []int, op c17Op, vals []int, errs []error, log []c17Ev, what string) string {
 	type flight struct {
 		leader  int
 		start   time.Duration
@@ -302,18 +316,22 @@ func c17CheckGroup(m *c17Model, op c17Op, vals []int, errs []error, log []c17Ev,
 			}
 		}
 		w := fmt.Sprintf("%s at +%v (tick %d)", what, at, tick)
-		key := ""
+		key, fkey, ci := "", "", 0
 		for _, e := range batch {
 			if e.kind == c17EvPeek {
 				continue
 			}
-			k := c17Key(op.T[e.who].Key)
-			if key != "" && k != key {
-				return w + ": harness: events of two keys share an instant"
+			k := fmt.Sprintf("cache %d %s", op.T[e.who].C, c17Key(op.T[e.who].Key))
+			if fkey != "" && k != fkey {
+				return w + ": harness: events of two keys or caches share an instant"
 			}
-			key = k
+			fkey, key, ci = k, c17Key(op.T[e.who].Key), op.T[e.who].C
 		}
-		fl := flights[key]
+		if len(ms) > 1 && fkey != "" {
+			w += fmt.Sprintf(" cache %d", ci)
+		}
+		m, expMs := ms[ci], exps[ci]
+		fl := flights[fkey]
 		for _, r := range ret {
 			if _, own := r.pval.(c17Panic); r.pan && !own {
 				return fmt.Sprintf("%s: Take of caller %d panicked with %v", w, r.who, r.pval)
@@ -325,8 +343,10 @@ func c17CheckGroup(m *c17Model, op c17Op, vals []int, errs []error, log []c17Ev,
 				return w + ": harness: snapshot instant shared with caller events"
 			}
 			for _, p := range peeks {
-				if f := m.reconcile(p.snap, tick, w+" snapshot"); f != "" {
-					return f
+				for i := range ms {
+					if f := ms[i].reconcile(p.snap[i], tick, fmt.Sprintf("%s snapshot of cache %d", w, i)); f != "" {
+						return f
+					}
 				}
 			}
 		case len(fen) > 0:
@@ -362,7 +382,7 @@ func c17CheckGroup(m *c17Model, op c17Op, vals []int, errs []error, log []c17Ev,
 					m.classes["take-fetch-panic-with-waiters"] = true
 				}
 				m.panicked[key] = true
-				delete(flights, key) // nothing is cached: the model is unchanged, the next snapshot checks it
+				delete(flights, fkey) // nothing is cached: the model is unchanged, the next snapshot checks it
 				continue
 			}
 			for _, r := range ret {
@@ -393,7 +413,7 @@ func c17CheckGroup(m *c17Model, op c17Op, vals []int, errs []error, log []c17Ev,
 					m.classes["take-evicts"] = true
 				}
 			}
-			delete(flights, key)
+			delete(flights, fkey)
 		default:
 			if len(arr) == 0 {
 				return fmt.Sprintf("%s: caller events without an arrival: %d fetch starts, %d returns", w, len(fst), len(ret))
@@ -455,14 +475,19 @@ func c17CheckGroup(m *c17Model, op c17Op, vals []int, errs []error, log []c17Ev,
 					return fmt.Sprintf("%s: caller %d returned (%v,%v) before the fetch completed", w, ret[0].who, ret[0].val, ret[0].err)
 				}
 				fl = &flight{leader: lead, start: at, waiters: map[int]bool{}}
-				flights[key] = fl
+				flights[fkey] = fl
+				for j, tk := range op.T {
+					if other := fmt.Sprintf("cache %d %s", tk.C, c17Key(tk.Key)); j != lead && tk.C != ci && tk.Key == op.T[lead].Key && flights[other] != nil {
+						m.classes["take-same-key-in-flight-in-both-caches"] = true
+					}
+				}
 				for _, a := range arr {
 					fl.waiters[a.who] = true
 				}
 				if m.panicked[key] {
 					m.classes["take-fetch-after-panic"] = true
 				}
-				if execs[key]++; execs[key] >= 2 {
+				if execs[fkey]++; execs[fkey] >= 2 {
 					m.classes["take-two-executions"] = true
 				}
 				if len(flights) >= 2 {
@@ -487,7 +512,7 @@ func c17CheckGroup(m *c17Model, op c17Op, vals []int, errs []error, log []c17Ev,
 
 func c17FirstAt(ts []c17Taker, j int) int {
 	for f := 0; f < j; f++ {
-		if ts[f].At == ts[j].At && ts[f].Key == ts[j].Key {
+		if ts[f].At == ts[j].At && ts[f].Key == ts[j].Key && ts[f].C == ts[j].C {
 			return f
 		}
 	}
@@ -519,20 +544,53 @@ func c17Run(c c17Case, classes map[string]bool) string {
 	if c.J > 0 {
 		time.Sleep(time.Duration(c.J))
 	}
-	var opts []CacheOption
-	if c.Limit > 0 {
-		opts = append(opts, WithLimit(c.Limit))
-		classes[fmt.Sprintf("limit-%d", c.Limit)] = true
-	} else {
-		classes["limit-none"] = true
+	type inst struct {
+		cache *Cache
+		m     *c17Model
+		exp   int
 	}
-	cache, err := NewCache(time.Duration(c.Exp)*time.Millisecond, opts...)
-	if err != nil {
-		return "NewCache: " + err.Error()
+	var insts []*inst
+	cfgs := []c17Cfg{{Limit: c.Limit, Exp: c.Exp, Name: c.Name}}
+	if c.C2 != nil {
+		cfgs = append(cfgs, *c.C2)
+		classes["two-caches"] = true
+		if c.C2.Name == c.Name {
+			classes["two-caches-same-name"] = true
+		}
 	}
-	defer cache.timingWheel.Stop()
-
-	m := c17NewModel(c.Limit, classes)
+	for i, cfg := range cfgs {
+		if i > 0 {
+			time.Sleep(time.Microsecond) // another seed for the second cache's jitter PRNG
+		}
+		var opts []CacheOption
+		if cfg.Limit > 0 {
+			opts = append(opts, WithLimit(cfg.Limit))
+			classes[fmt.Sprintf("limit-%d", cfg.Limit)] = true
+		} else {
+			classes["limit-none"] = true
+		}
+		if cfg.Name != "" {
+			opts = append(opts, WithName(cfg.Name))
+		}
+		cache, err := NewCache(time.Duration(cfg.Exp)*time.Millisecond, opts...)
+		if err != nil {
+			return "NewCache: " + err.Error()
+		}
+		defer cache.timingWheel.Stop()
+		insts = append(insts, &inst{cache: cache, m: c17NewModel(cfg.Limit, classes), exp: cfg.Exp})
+	}
+	pick := func(ci int) *inst {
+		if ci < 0 || ci >= len(insts) {
+			ci = 0
+		}
+		return insts[ci]
+	}
+	tag := func(ci int, what string) string {
+		if len(insts) > 1 {
+			return fmt.Sprintf("%s cache %d", what, ci)
+		}
+		return what
+	}
 	tickNow := func() int { return int(elapsed() / c17Tick) }
 	sleepUntil := func(target time.Duration) {
 		d := target - elapsed()
@@ -544,7 +602,7 @@ func c17Run(c c17Case, classes map[string]bool) string {
 		}
 		kit.Wait()
 	}
-	peek := func() map[string]any {
+	peek1 := func(cache *Cache) map[string]any {
 		cache.lock.Lock()
 		defer cache.lock.Unlock()
 		s := make(map[string]any, len(cache.data))
@@ -553,7 +611,22 @@ func c17Run(c c17Case, classes map[string]bool) string {
 		}
 		return s
 	}
-	check := func(what string) string { return m.reconcile(peek(), tickNow(), what) }
+	peek := func() []map[string]any {
+		var r []map[string]any
+		for _, in := range insts {
+			r = append(r, peek1(in.cache))
+		}
+		return r
+	}
+	reconcileAll := func(T int, what string) string {
+		for i, in := range insts {
+			if f := in.m.reconcile(peek1(in.cache), T, tag(i, what)); f != "" {
+				return f
+			}
+		}
+		return ""
+	}
+	check := func(what string) string { return reconcileAll(tickNow(), what) }
 	stepTo := func(target int, what string) string {
 		for {
 			now := tickNow()
@@ -562,9 +635,11 @@ func c17Run(c c17Case, classes map[string]bool) string {
 			}
 			next := now + 1
 			minStart := 1 << 30
-			for _, e := range m.ents {
-				if s := e.set + e.lo; s < minStart {
-					minStart = s
+			for _, in := range insts {
+				for _, e := range in.m.ents {
+					if s := e.set + e.lo; s < minStart {
+						minStart = s
+					}
 				}
 			}
 			if minStart-1 > next {
@@ -574,12 +649,12 @@ func c17Run(c c17Case, classes map[string]bool) string {
 				}
 			}
 			sleepUntil(time.Duration(next)*c17Tick + c17OpPhase)
-			if f := m.reconcile(peek(), next, what); f != "" {
+			if f := reconcileAll(next, what); f != "" {
 				return f
 			}
 		}
 	}
-	wheelPos := func(key string) (int, bool) {
+	wheelPos := func(cache *Cache, key string) (int, bool) {
 		v, ok := cache.timingWheel.timers.Get(key)
 		if !ok {
 			return 0, false
@@ -592,11 +667,12 @@ func c17Run(c c17Case, classes map[string]bool) string {
 		return f
 	}
 	nextVal := 0
-	doSet := func(what, key string, expMs int, custom bool) string {
+	doSet := func(in *inst, what, key string, expMs int, custom bool) string {
+		cache, m := in.cache, in.m
 		nextVal++
 		val := nextVal
 		old, live := m.ents[key]
-		oldPos, havePos := wheelPos(key)
+		oldPos, havePos := wheelPos(cache, key)
 		now := tickNow()
 		if custom {
 			cache.SetWithExpire(key, val, time.Duration(expMs)*time.Millisecond)
@@ -609,7 +685,7 @@ func c17Run(c c17Case, classes map[string]bool) string {
 			if now-old.set >= old.lo {
 				classes["reset-in-window"] = true
 			}
-			if newPos, ok := wheelPos(key); ok && havePos && now > old.set {
+			if newPos, ok := wheelPos(cache, key); ok && havePos && now > old.set {
 				classes["reset-live-later-tick"] = true
 				tp := (now + c17Slots - 1) % c17Slots
 				rel := func(p int) int { return (p-tp+c17Slots-1)%c17Slots + 1 }
@@ -642,13 +718,15 @@ func c17Run(c c17Case, classes map[string]bool) string {
 	for i, o := range c.Ops {
 		what := fmt.Sprintf("op %d %s (tick %d)", i, c17OpString(o), tickNow())
 		key := c17Key(o.Key)
+		in := pick(o.C)
+		cache, m := in.cache, in.m
 		switch o.K {
 		case "set":
-			if f := doSet(what, key, c.Exp, false); f != "" {
+			if f := doSet(in, what, key, in.exp, false); f != "" {
 				return f
 			}
 		case "setx":
-			if f := doSet(what, key, o.E, true); f != "" {
+			if f := doSet(in, what, key, o.E, true); f != "" {
 				return f
 			}
 		case "get":
@@ -681,7 +759,7 @@ func c17Run(c c17Case, classes map[string]bool) string {
 				return f
 			}
 		case "adv":
-			if o.N >= c17Slots && len(m.ents) > 0 {
+			if o.N >= c17Slots && len(insts[0].m.ents) > 0 {
 				classes["adv-revolution-live"] = true
 			}
 			if f := stepTo(tickNow()+o.N, what); f != "" {
@@ -691,6 +769,12 @@ func c17Run(c c17Case, classes map[string]bool) string {
 			// Callers arriving at the same instant share one fetch specification
 			// (latency, outcome, value): which of them becomes the executing caller
 			// is up to the scheduler, and the verdict must not depend on it.
+			o.T = c17NormTakers(o.T)
+			for j := range o.T {
+				if o.T[j].C < 0 || o.T[j].C >= len(insts) {
+					o.T[j].C = 0
+				}
+			}
 			o.T = c17NormTakers(o.T)
 			n := len(o.T)
 			vals := make([]int, n)
@@ -721,9 +805,10 @@ func c17Run(c c17Case, classes map[string]bool) string {
 					span = tk.At
 				}
 				go func() {
-					if d := time.Duration(tk.At)*c17Grid + time.Duration(tk.Key)*c17KeyPhase; d > 0 {
+					if d := time.Duration(tk.At)*c17Grid + time.Duration(tk.Key)*c17KeyPhase + time.Duration(tk.C)*c17CachePhase; d > 0 {
 						time.Sleep(d)
 					}
+					cache := pick(tk.C).cache
 					rec(c17Ev{kind: c17EvArrive, who: j})
 					ev := c17Ev{kind: c17EvReturn, who: j, pan: true}
 					func() {
@@ -777,7 +862,12 @@ func c17Run(c c17Case, classes map[string]bool) string {
 			} else {
 				classes["take-single"] = true
 			}
-			if f := c17CheckGroup(m, o, vals, errs, log, c.Exp, what); f != "" {
+			var ms []*c17Model
+			var exps []int
+			for _, in := range insts {
+				ms, exps = append(ms, in.m), append(exps, in.exp)
+			}
+			if f := c17CheckGroup(ms, exps, o, vals, errs, log, what); f != "" {
 				return f
 			}
 			if f := check(what + " end"); f != "" {
@@ -789,16 +879,19 @@ func c17Run(c c17Case, classes map[string]bool) string {
 	}
 
 	// public-API sweep: Get of every key agrees with the model
-	for i := 0; i < c.NK; i++ {
-		key := c17Key(i)
-		v, ok := cache.Get(key)
-		if e, live := m.ents[key]; live {
-			if !ok || v != any(e.val) {
-				return fmt.Sprintf("final sweep (tick %d): Get(%s) returned (%v,%v), most recently set value %d (set at tick %d, window [%d,%d])", tickNow(), key, v, ok, e.val, e.set, e.lo, e.hi)
+	for ci, in := range insts {
+		cache, m := in.cache, in.m
+		for i := 0; i < c.NK; i++ {
+			key := c17Key(i)
+			v, ok := cache.Get(key)
+			if e, live := m.ents[key]; live {
+				if !ok || v != any(e.val) {
+					return fmt.Sprintf("%s (tick %d): Get(%s) returned (%v,%v), most recently set value %d (set at tick %d, window [%d,%d])", tag(ci, "final sweep"), tickNow(), key, v, ok, e.val, e.set, e.lo, e.hi)
+				}
+				m.touch(key)
+			} else if ok {
+				return fmt.Sprintf("%s (tick %d): Get(%s) returned (%v,true), the model has it deleted/evicted/expired or never set", tag(ci, "final sweep"), tickNow(), key, v)
 			}
-			m.touch(key)
-		} else if ok {
-			return fmt.Sprintf("final sweep (tick %d): Get(%s) returned (%v,true), the model has it deleted/evicted/expired or never set", tickNow(), key, v)
 		}
 	}
 	kit.Wait()
@@ -806,26 +899,31 @@ func c17Run(c c17Case, classes map[string]bool) string {
 	// entries with a long expiry are not ticked through, they must survive the
 	// horizon, which also runs past every shorter expiry they had before a re-set
 	end := tickNow()
-	if m.shortEnd > end {
-		end = m.shortEnd
+	for _, in := range insts {
+		if in.m.shortEnd > end {
+			end = in.m.shortEnd
+		}
 	}
 	if f := stepTo(end+1, "horizon"); f != "" {
 		return f
 	}
-	for k, e := range m.ents {
-		if !e.long {
-			panic("c17 harness: short-lived " + k + " in the model after the horizon")
-		}
-		classes["long-expiry-survives-horizon"] = true
-	}
-	for i := 0; i < c.NK; i++ {
-		v, ok := cache.Get(c17Key(i))
-		if e, live := m.ents[c17Key(i)]; live {
-			if !ok || v != any(e.val) {
-				return fmt.Sprintf("after horizon (tick %d): Get(%s) returned (%v,%v), most recently set value %d (set at tick %d, may be dropped for age only %d..%d ticks later)", tickNow(), c17Key(i), v, ok, e.val, e.set, e.lo, e.hi)
+	for ci, in := range insts {
+		cache, m := in.cache, in.m
+		for k, e := range m.ents {
+			if !e.long {
+				panic("c17 harness: short-lived " + k + " in the model after the horizon")
 			}
-		} else if ok {
-			return fmt.Sprintf("after horizon (tick %d): Get(%s) returned (%v,true)", tickNow(), c17Key(i), v)
+			classes["long-expiry-survives-horizon"] = true
+		}
+		for i := 0; i < c.NK; i++ {
+			v, ok := cache.Get(c17Key(i))
+			if e, live := m.ents[c17Key(i)]; live {
+				if !ok || v != any(e.val) {
+					return fmt.Sprintf("%s (tick %d): Get(%s) returned (%v,%v), most recently set value %d (set at tick %d, may be dropped for age only %d..%d ticks later)", tag(ci, "after horizon"), tickNow(), c17Key(i), v, ok, e.val, e.set, e.lo, e.hi)
+				}
+			} else if ok {
+				return fmt.Sprintf("%s (tick %d): Get(%s) returned (%v,true)", tag(ci, "after horizon"), tickNow(), c17Key(i), v)
+			}
 		}
 	}
 	return ""
@@ -834,9 +932,9 @@ func c17Run(c c17Case, classes map[string]bool) string {
 func c17OpString(o c17Op) string {
 	switch o.K {
 	case "set", "get", "del":
-		return fmt.Sprintf("%s(k%d)", o.K, o.Key)
+		return fmt.Sprintf("%s(c%d,k%d)", o.K, o.C, o.Key)
 	case "setx":
-		return fmt.Sprintf("setx(k%d,%dms)", o.Key, o.E)
+		return fmt.Sprintf("setx(c%d,k%d,%dms)", o.C, o.Key, o.E)
 	case "adv":
 		return fmt.Sprintf("adv(%d)", o.N)
 	case "take":
